@@ -10,6 +10,7 @@ import (
 	"bytes"
 	"encoding/json"
 	"fmt"
+	"strings"
 	"time"
 
 	"github.com/pion/interceptor"
@@ -34,11 +35,12 @@ type emitted struct {
 	dumpR string
 	dumpC string
 	stats string
+	log   string
 	err   string
 }
 
 func (e *emitted) String() string {
-	return fmt.Sprintf("rtp=%v\nrtcp=%v\ndump-rtp=%q\ndump-rtcp=%q\nstats=%s", e.rtp, e.rtcp, e.dumpR, e.dumpC, e.stats)
+	return fmt.Sprintf("rtp=%v\nrtcp=%v\ndump-rtp=%q\ndump-rtcp=%q\nstats=%s\nlog=%q", e.rtp, e.rtcp, e.dumpR, e.dumpC, e.stats, e.log)
 }
 
 // run executes a history; reuse selects the scribbling caller.
@@ -129,6 +131,10 @@ func run(c config, hist []int, reuse bool) (*emitted, *vsched.Result) {
 				rseq += 2
 				h, p := hk.Shape(shape, r1.Info.SSRC, rseq, uint32(rseq)*3000)
 				_ = h.SetExtension(hk.TwccExtID, []byte{byte(rseq >> 8), byte(rseq)})
+				if a == 3 && rseq%4 == 3 {
+					// a transport-cc element of one byte (legal RFC 8285, not a transport-cc number)
+					_ = h.SetExtension(hk.TwccExtID, []byte{byte(rseq) | 0x80})
+				}
 				raw := hk.MarshalRTP(h, p)
 				readOne(em, r1, raw, reuse, rbuf)
 			case 5:
@@ -182,6 +188,9 @@ func run(c config, hist []int, reuse bool) (*emitted, *vsched.Result) {
 		}
 		if x.DumpRTP != nil {
 			em.dumpR, em.dumpC = x.DumpRTP.String(), x.DumpRTCP.String()
+		}
+		if x.Log != nil {
+			em.log = strings.Join(x.Log.Lines, "\n")
 		}
 	})
 	return em, res
@@ -301,6 +310,8 @@ func exec(c config, hist []int) hk.Step {
 			what = "rtcp-dump"
 		case a.stats != b.stats:
 			what = "stats"
+		case a.log != b.log:
+			what = "log"
 		}
 		st.Violation = &hk.Violation{Key: "C13:" + c.Kind + ":emitted-" + what + "-depends-on-caller-memory-after-return",
 			Message: fmt.Sprintf("what the interceptor emitted differs between the run with fresh buffers and the run where the caller reused and overwrote its header/payload/read buffer right after each call returned (%s):\n--- fresh\n%.1500s\n--- reused\n%.1500s", what, sa, sb),
